@@ -468,8 +468,15 @@ pub fn build_arg(a: &ArgSpec) -> Arg {
         };
         x = x.requires_if(pred, r.clone());
     }
-    for c in &a.overrides {
-        x = x.overrides_with(c.clone());
+    // equivalent builder calls, chosen from the definition itself: one call per relation, or the
+    // first by overrides_with and the rest by overrides_with_all (both extend the list)
+    if a.overrides.len() >= 2 && (a.overrides.len() + a.id.bytes().last().unwrap_or(0) as usize) % 2 == 0 {
+        x = x.overrides_with(a.overrides[0].clone());
+        x = x.overrides_with_all(a.overrides[1..].to_vec());
+    } else {
+        for c in &a.overrides {
+            x = x.overrides_with(c.clone());
+        }
     }
     if !a.required_unless_any.is_empty() {
         x = x.required_unless_present_any(a.required_unless_any.clone());
@@ -621,6 +628,15 @@ pub fn build(c: &CmdSpec) -> Command {
     }
     for s in &c.subs {
         x = x.subcommand(build(s));
+    }
+    // an equivalent way of building: touch one option through mut_arg (identity closure). Only a
+    // non-positional argument: mut_arg re-appends the argument, which renumbers implicit positionals.
+    let touch = c.args.iter().filter(|a| !a.is_positional()).count();
+    if touch > 0 && (c.args.len() + c.subs.len()) % 3 == 0 {
+        if let Some(a) = c.args.iter().find(|a| !a.is_positional()) {
+            // (explicit display orders are kept; the implicit one of the touched argument is taken again)
+            x = x.mut_arg(a.id.clone(), |arg| arg);
+        }
     }
     x
 }
